@@ -202,6 +202,18 @@ func NewProofCommit(key *gabikeys.PublicKey, witn *Witness, randomizer *big.Int)
 // SetExpected sets certain values of the proof to expected values, inferred from the containing proofs,
 // before verification.
 func (p *Proof) SetExpected(pk *gabikeys.PublicKey, challenge, response *big.Int) error {
+	if !pk.RevocationSupported() || pk.ECDSA == nil {
+		return errors.New("public key does not support revocation")
+	}
+	if p.Cr == nil || p.Cu == nil || p.SignedAccumulator == nil || p.Responses == nil ||
+		challenge == nil || response == nil {
+		return errors.New("malformed nonrevocation proof")
+	}
+	for _, name := range secretNames {
+		if name != "alpha" && p.Responses[name] == nil {
+			return errors.New("malformed nonrevocation proof")
+		}
+	}
 	acc, err := p.SignedAccumulator.UnmarshalVerify(pk)
 	if err != nil {
 		return err
